@@ -665,6 +665,10 @@ func c03Hrefs(c *Ctx, r *RuleResult, sz *sanitiser) {
 			if env.Bool("fails:path/filepath.Rel(root,p)#1") {
 				return []string{"error"}, true
 			}
+			// the served directory itself is "/", not "/." (Rel gives ".")
+			if env.Eq(K("."), S("path/filepath.Rel(root,p)#0")) {
+				return []string{"ok:\"/\""}, true
+			}
 			return []string{"ok:(\"/\"+path/filepath.ToSlash(path/filepath.Rel(root,p)#0))"}, true
 		}}
 	res := runDTX(c, spec)
